@@ -447,3 +447,69 @@ class Gen:
         env, entries = self.input_context()
         kind = self.rng.choice(['num', 'num', 'bool', 'bool', 'lnum', 'lnum', 'str', 'ctx', 'lctx', 'any'])
         return entries, self.gen(kind, depth, env)
+
+
+# ---------------------------------------------------------------- systematic nesting matrix
+def root(e):
+    return e[0] if e[0] != 'bin' else 'bin:' + e[1]
+
+
+def parents(gen, env):
+    """(parent name, hole kind, builder) — builder wraps a child expression of the hole kind into the parent construct"""
+    r = gen.rng
+    n = lambda: gen.leaf('num', env)
+    out = []
+    for op in ('Add', 'Sub', 'Mul', 'Div', 'Exp', 'Lt', 'Le', 'Gt', 'Ge', 'Eq', 'Ne'):
+        out.append(('bin:' + op, 'num', lambda c, op=op: ('bin', op, c, ('num', r.choice([1, 2])))))
+        out.append(('bin:' + op + '/r', 'num', lambda c, op=op: ('bin', op, ('num', r.choice([4, 6])), c) if op != 'Exp' else ('bin', 'Mul', ('num', 2), c)))
+    for op in ('And', 'Or'):
+        out.append(('bin:' + op, 'bool', lambda c, op=op: ('bin', op, c, ('bool', r.random() < 0.5))))
+    out.append(('bin:Add/str', 'str', lambda c: ('bin', 'Add', c, ('str', 'z'))))
+    out.append(('bin:Eq/any', 'any', lambda c: ('bin', 'Eq', c, c)))
+    out.append(('neg', 'num', lambda c: ('neg', c)))
+    out.append(('if/cond', 'bool', lambda c: ('if', c, n(), n())))
+    out.append(('if/then', 'any', lambda c: ('if', ('bool', True), c, ('null',))))
+    out.append(('if/else', 'any', lambda c: ('if', ('bool', False), ('null',), c)))
+    out.append(('between/x', 'num', lambda c: ('between', c, ('num', 0), ('num', 5))))
+    out.append(('between/hi', 'num', lambda c: ('between', ('num', 3), ('num', 0), c)))
+    out.append(('in/x', 'num', lambda c: ('in', c, (('cmp', 'CLt', ('num', 3)), ('val', ('num', 10))))))
+    out.append(('in/val', 'num', lambda c: ('in', ('num', 2), (('val', c), ('range', ('num', 5), True, ('num', 6), False)))))
+    out.append(('inlist/l', 'lnum', lambda c: ('inlist', ('num', 2), c)))
+    out.append(('list', 'any', lambda c: ('list', (n(), c))))
+    out.append(('ctx/entry', 'any', lambda c: ('ctx', ((101, n()), (102, c)))))
+    out.append(('path', 'ctx', lambda c: ('path', c, 101)))
+    out.append(('path/list', 'lctx', lambda c: ('path', c, 101)))
+    out.append(('filter/list', 'lnum', lambda c: ('filter', c, ('bin', 'Gt', ('name', 50), ('num', 1)))))
+    out.append(('filter/index', 'num', lambda c: ('filter', ('list', (n(), n(), n())), c)))
+    out.append(('filter/pred', 'bool', lambda c: ('filter', ('list', (n(), n())), c)))
+    out.append(('for/dom', 'lnum', lambda c: ('for', ((108, ('dlist', c)), (107, ('drange', ('num', 1), ('num', 2)))), ('bin', 'Add', ('name', 108), ('name', 107)))))
+    out.append(('for/range', 'num', lambda c: ('for', ((108, ('drange', ('num', 1), c)),), ('name', 108))))
+    out.append(('for/body', 'any', lambda c: ('for', ((108, ('dlist', ('list', (n(), n())))),), c)))
+    out.append(('some/dom', 'lnum', lambda c: ('some', ((108, c),), ('bin', 'Gt', ('name', 108), ('num', 1)))))
+    out.append(('some/body', 'bool', lambda c: ('some', ((108, ('list', (n(), n()))),), c)))
+    out.append(('every/body', 'bool', lambda c: ('every', ((108, ('list', (n(), n()))), (107, ('list', (n(),)))), c)))
+    out.append(('fun/body', 'any', lambda c: ('call', ('fun', (108,), c), (n(),))))
+    out.append(('call/arg', 'any', lambda c: ('call', ('fun', (108,), ('name', 108)), (c,))))
+    out.append(('calln/arg', 'any', lambda c: ('calln', ('fun', (108, 107), ('list', (('name', 107), ('name', 108)))), ((107, c), (108, n())))))
+    return out
+
+
+def systematic_cases(gen, tries=40):
+    """for every parent position and every construct that can stand there, one expression with that nesting (found by rejection sampling)"""
+    cases, missing = [], []
+    env, entries = gen.input_context()
+    while len(env) < 4:
+        env, entries = gen.input_context()
+    all_roots = ['bin:' + o for o in BINOPS] + ['neg', 'if', 'between', 'in', 'inlist', 'list', 'ctx', 'path', 'filter', 'for', 'some', 'every', 'call', 'calln',
+                                               'num', 'str', 'bool', 'null', 'name']
+    for pname, kind, build in parents(gen, env):
+        found = {}
+        for _ in range(tries * len(all_roots)):
+            c = gen.gen(kind, gen.rng.choice([1, 2, 2]), env)
+            found.setdefault(root(c), c)
+            if len(found) == len(all_roots):
+                break
+        for rt, c in found.items():
+            cases.append((entries, build(c), pname, rt))
+        missing += [(pname, rt) for rt in all_roots if rt not in found]
+    return cases, missing
